@@ -37,6 +37,46 @@ def run(ctx, prop, quick=1020, thorough=20400, sub="optsdom"):
     return summ
 
 
+CORR = {
+    "C12": ("c12opts", "FlattenBatches: option values of the result (FlattenOpts.flatten_o_stable_view)"),
+    "C11": ("c11opts", "SegmentFile: option values of both outputs (SegmentOpts.segment_opts_view ST)"),
+}
+
+
+def corr(ctx, prop):
+    """Correspondence of the option model of the property (coq/Model/FlattenOpts.v / SegmentOpts.v, extracted)
+    with the real FlattenBatches / SegmentFile: exact option value of the derived file(s) and of every batch."""
+    name, label = CORR[prop]
+    binary = os.path.join(C.BIN, "optsdom")
+    ok, out = C.build_ocaml(name)
+    ctx.log("ocaml " + name, out[-2000:])
+    drv = os.path.join(C.BUILD, "ocaml", name, "driver")
+    if not ok or not os.path.exists(drv) or not os.path.exists(binary):
+        ctx.diag.append("option correspondence (%s): extracted model or harness command missing: %s" % (prop, out[-300:]))
+        return
+    d = os.path.join(ctx.rundir, "corr-opts")
+    os.makedirs(d, exist_ok=True)
+    rc, out = C.sh([binary, "corr", "-prop", prop, "-out", d, "-n", str(ctx.scale(1500, 20000))], timeout=3000)
+    ctx.log("corr-opts", out[-1500:])
+    if rc != 0:
+        ctx.diag.append("option correspondence (%s) crashed rc=%d: %s" % (prop, rc, out[-300:]))
+        return
+    rc2, out2 = C.sh("%s %s > %s" % (drv, os.path.join(d, "cases.txt"), os.path.join(d, "model.txt")), timeout=3000)
+    if rc2 != 0:
+        ctx.diag.append("extracted option model crashed: " + out2[-300:])
+    ctx.compare(label, os.path.join(d, "model.txt"), os.path.join(d, "impl.txt"), os.path.join(d, "specs.jsonl"))
+    try:
+        info = json.loads(out.strip().splitlines()[-1])
+        ctx.cov.setdefault("distribution", {})["option correspondence"] = info
+        if info.get("cases", 0) < 100:
+            ctx.diag.append("option correspondence (%s): only %d cases" % (prop, info.get("cases", 0)))
+    except (ValueError, IndexError):
+        pass
+    ctx.trusted.append("option observation of harness/cmd/optsdom corr: ValidateOpts read through the verif hooks VerifBatchValidation / "
+                       "VerifIATBatchValidation and File.GetValidation, CheckTransactionCode identified by behaviour on three probe codes; "
+                       "translator/optsites.go (syntactic list of the SetValidation statements of file_flattener.go, the segment functions of file.go and reversal.go)")
+
+
 def selftest(ctx):
     """gen.NeedsOpts produces every variant at a healthy rate (table-driven, harness/cmd/optstest)."""
     binary = os.path.join(C.BIN, "optstest")
